@@ -1,1 +1,39 @@
-fn main(){}
+//! `lua` stand-in: `lua [FILE|-]`.
+use std::io::Read;
+
+fn main() {
+    let args: Vec<String> = std::env::args().skip(1).collect();
+    let mut src = Vec::new();
+    let res = match args.first().map(|s| s.as_str()) {
+        None | Some("-") => std::io::stdin().read_to_end(&mut src).map(|_| ()),
+        Some(path) => std::fs::read(path).map(|b| src = b),
+    };
+    if let Err(e) = res {
+        eprintln!("lua: cannot open {}: {}", args.first().map(|s| s.as_str()).unwrap_or("stdin"), e);
+        std::process::exit(1);
+    }
+    let text = String::from_utf8_lossy(&src).into_owned();
+    let max_steps = std::env::var("MINILUA_MAX_STEPS").ok().and_then(|s| s.parse::<u64>().ok()).unwrap_or(u64::MAX);
+    let opts = minilua::RunOptions { max_steps, capture_output: false, ..Default::default() };
+    match minilua::run_source(&text, &opts) {
+        Err(e) => {
+            eprintln!("lua: {}", e.message);
+            std::process::exit(1);
+        }
+        Ok(r) => match r.outcome {
+            minilua::Outcome::Done => {}
+            minilua::Outcome::Error { message, .. } => {
+                eprintln!("lua: {}", message);
+                std::process::exit(1);
+            }
+            minilua::Outcome::StepLimit => {
+                eprintln!("minilua: step limit exhausted after {} steps", r.steps);
+                std::process::exit(2);
+            }
+            minilua::Outcome::Unsupported(m) => {
+                eprintln!("minilua: unsupported: {}", m);
+                std::process::exit(2);
+            }
+        },
+    }
+}
